@@ -1,7 +1,7 @@
 '''C14 - persisted environments: a bad file means not-done, not an abort.'''
 import ast
 
-from ..rules import persist
+from ..rules import persist, patterns
 from ..astutil import call_name, txt, walk_local
 from ..mutate import (Variant, edit_module, find_func, replace_first, parse_expr,
                       parse_stmts)
@@ -68,9 +68,10 @@ def check(ctx):
                                at=func.where(node))
     ctx.floor('RUN-PATH', int(found), 1, 'schedule(env=...) in the run '
               'command')
+    ctx.run(patterns.check_patterns, ID)
 
 
-def variants(program):
+def _variants(program):
     out = [v for v in _sched.variants(program, ID)]
     envmod = 'valjean.cosette.env'
 
@@ -310,3 +311,8 @@ def variants(program):
     out.append(Variant('twin-destination-opened-through-pathlib', 'twin',
                        edit_module(program, envmod, path_open_method)))
     return out
+
+
+def variants(program):
+    from ..variants import patterns as _pv
+    return list(_variants(program)) + _pv.variants(program, ID)
